@@ -352,7 +352,7 @@ def run (env : Env) (s : St) : List Op → St
 /-! ## what an observer sees -/
 
 inductive Beh where
-  | orig | cb (k : Nat) | stub | unknown
+  | orig | cb (k : Nat) | stub (n : Nat) | unknown
   deriving DecidableEq, Repr
 
 /-- behaviour class of a call to `f`: decided by the entry bytes (the CPU executes them) -/
@@ -362,7 +362,7 @@ def behaviour (env : Env) (s : St) (nCb : Nat) (f : Nat) : Beh :=
   else match (List.range nCb).find? (fun k => cur = jumpTo (env.cbAddr k)) with
     | some k => .cb k
     | none => match (List.range s.nStubs).find? (fun n => cur = jumpTo (env.stubAddr n)) with
-      | some _ => .stub
+      | some n => .stub n
       | none => .unknown
 
 end Patch
